@@ -33,13 +33,16 @@ def body(c):
         "properties, each shown non-vacuous by counters.  Implementation: "
         "%d bounded-exhaustive cases (6 prefixes x 33-call alphabet ^ %d) plus "
         "%d random histories of up to %d calls over 1-2 vnacal_t and <= 3 "
-        "vnacal_new_t each; every public call is one event whose result, "
+        "vnacal_new_t each, plus %d bulk histories (20-40 handles, one "
+        "vnacal_new_t using 10-20 of them, held handles deleted and re-used, "
+        "unknowns solved by two vnacal_new_t on different grids); every public call is one event whose result, "
         "errno, error-callback record and the full getter projection of every "
         "live vnacal_t must be explained by CalStore!Do; distinct_nontrivial "
         "counts episodes with pairwise different event sequences in which a "
         "calibration was stored or deleted or a user handle deleted."
         % (stats.get("exh_cases", 0), stats.get("exh_depth", 0),
-           stats.get("rand_cases", 0), stats.get("rand_len", 0)))
+           stats.get("rand_cases", 0), stats.get("rand_len", 0),
+           stats.get("bulk_cases", 0)))
     c.cov["trusted_base"] = [
         "TLC 1.8", "CalStore.tla transcription of vnacal(3), "
         "vnacal_parameter(3), vnacal_new(3)", "PropDoc.tla",
